@@ -169,6 +169,7 @@ fn check_matches(ms: &[(u32, u32)], k: usize) -> Result<(), String> {
 }
 
 pub fn run(input: &str) -> Result<(), String> {
+    if field(input, "limit").is_some() { return check_qgram_limit(&unhex(field(input, "sym").unwrap_or("")), num(input, "q") as u32, &unhex(field(input, "text").unwrap_or(""))); }
     if let Some(m) = field(input, "matches") {
         let v = nums(m); let ms: Vec<(u32, u32)> = v.chunks(2).map(|c| (c[0] as u32, c[1] as u32)).collect();
         return check_matches(&ms, num(input, "k"));
@@ -177,9 +178,37 @@ pub fn run(input: &str) -> Result<(), String> {
     let mc = field(input, "max").map(|v| if v == "max" { usize::MAX } else { v.parse().unwrap() }).unwrap_or(usize::MAX);
     check_index(&unhex(field(input, "sym").unwrap_or("")), &unhex(field(input, "text").unwrap_or("")), &unhex(field(input, "pat").unwrap_or("")), num(input, "q") as u32, mc)
 }
+/// q-gram coding at and next to the word-size limit (q * bits == 64 and one symbol below): forward and reverse iteration mirror each other and
+/// the codes are injective (no index is built: its table would have 2^(q*bits) entries)
+fn check_qgram_limit(sym: &[u8], q: u32, text: &[u8]) -> Result<(), String> {
+    let (sym, text) = (sym.to_vec(), text.to_vec());
+    guarded(move || {
+        let a = Alphabet::new(&sym);
+        let rt = RankTransform::new(&a);
+        let qu = q as usize;
+        if text.len() < qu { return Ok(()); }
+        let fw: Vec<usize> = rt.qgrams(q, &text[..]).collect();
+        let mut bw: Vec<usize> = rt.rev_qgrams(q, &text[..]).collect();
+        bw.reverse();
+        if fw.len() != text.len() + 1 - qu { return Err(format!("{} q-gram codes for a text of {} symbols (q={})", fw.len(), text.len(), q)); }
+        if fw != bw { return Err(format!("reverse q-gram iteration does not mirror forward iteration (q={}, {} symbols)", q, sym.len())); }
+        for i in 0..fw.len() { for j in 0..i {
+            if (fw[i] == fw[j]) != (text[i..i + qu] == text[j..j + qu]) { return Err(format!("q-gram codes not injective at q={}: positions {} and {}", q, j, i)); }
+        } }
+        Ok(())
+    }).and_then(|r| r)
+}
 pub fn search(seed: u64, budget: &Budget, thorough: bool) -> (u64, Option<(String, String)>) {
     let rng = Rng::new(seed);
     let mut tried = 0;
+    for (sym, qs) in [(&b"AB"[..], &[62u32, 63, 64][..]), (&b"ACGT"[..], &[30, 31, 32][..]), (&b"ACGTN"[..], &[20, 21][..]), (&b"ABCDEFGHI"[..], &[15, 16][..])].iter() {
+        for &q in qs.iter() {
+            let mut text = rng.bytes(q as usize + 6, sym);
+            let rep = text[..q as usize].to_vec(); text.extend(rep);          // one q-gram occurs twice
+            tried += 1;
+            if let Err(e) = check_qgram_limit(sym, q, &text) { return (tried, Some((format!("limit=1 sym={} q={} text={}", hex(sym), q, hex(&text)), e))); }
+        }
+    }
     let rounds = if thorough { 200000 } else { 4000 };
     for round in 0..rounds {
         if !budget.left() { break; }
